@@ -157,6 +157,62 @@ func (m SerializedMessage) Headers() map[string][]byte {
 	return headers
 }
 
+// valid indicates if the data is a well-formed message, i.e. the CRC matches
+// and the key, value, and headers lie within the message. The accessors above
+// rely on this and must not be used on data which has not been checked.
+func (m SerializedMessage) valid() bool {
+	// CRC, magic byte, and attributes.
+	if len(m) < 6 || crc32.Checksum(m[4:], crc32cTable) != encoding.Uint32(m) {
+		return false
+	}
+	rest := []byte(m[6:])
+	// Key and value, each a size followed by the data. A nil slice is encoded
+	// with a size of -1.
+	for i := 0; i < 2; i++ {
+		if len(rest) < 4 {
+			return false
+		}
+		size := int32(encoding.Uint32(rest))
+		rest = rest[4:]
+		if size == -1 {
+			continue
+		}
+		if size < 0 || int(size) > len(rest) {
+			return false
+		}
+		rest = rest[size:]
+	}
+	if len(rest) < 2 {
+		return false
+	}
+	numHeaders := encoding.Uint16(rest)
+	rest = rest[2:]
+	for i := uint16(0); i < numHeaders; i++ {
+		if len(rest) < 2 {
+			return false
+		}
+		keySize := int(encoding.Uint16(rest))
+		rest = rest[2:]
+		if keySize > len(rest) {
+			return false
+		}
+		rest = rest[keySize:]
+		if len(rest) < 4 {
+			return false
+		}
+		size := int32(encoding.Uint32(rest))
+		rest = rest[4:]
+		if size == -1 {
+			continue
+		}
+		if size < 0 || int(size) > len(rest) {
+			return false
+		}
+		rest = rest[size:]
+	}
+	return true
+}
+
 func (m SerializedMessage) keyOffsets() (start, end, size int32) {
 	start = 6
 	size = int32(encoding.Uint32(m[start:]))
